@@ -177,11 +177,15 @@ class MeshTet1(MeshSimplex, Mesh3D):
         # add noise so that there are no edges with the same length; edge
         # lengths depend neither on the position nor on the unit of the
         # mesh, so the noise is added relative to the centred coordinates
+        # of the mesh (p is a work array with unused columns and bisection
+        # adds no points outside the mesh, so centre and size are taken
+        # from the mesh and stay the same while the closure adds points)
         np.random.seed(1337)
-        p = p - p.mean(axis=1)[:, None]
+        centre = self.p.mean(axis=1)[:, None]
+        p = p - centre
         # (drawn point by point: the noise of a point does not change when
         # the closure adds points and the elements are sorted again)
-        p = p + (1e-10 * np.abs(p).max()
+        p = p + (1e-10 * np.abs(self.p - centre).max()
                  * np.random.random(p.shape[::-1]).T)
 
         l01 = np.sqrt(np.sum((p[:, t[0, marked]] - p[:, t[1, marked]]) ** 2,
